@@ -165,7 +165,8 @@ class Pools:
                         break
                     p2 = rng.choice(self.si_prefixes) if rng.random() < prefix_prob * 0.5 else None
                     comp.append((p2, rng.choice(fpool), e * exp))
-                if ok and comp:
+                # stay inside the properties' space: |exponent| <= 3 per factor
+                if ok and comp and all(abs(e2) <= 3 for _, _, e2 in comp):
                     out.extend(comp)
                     continue
             if not pool:
@@ -178,7 +179,11 @@ class Pools:
         merged = {}
         for pfx, name, exp in out:
             merged[(pfx, name)] = merged.get((pfx, name), 0) + exp
-        return [(p, n, e) for (p, n), e in merged.items() if e != 0] or [(None, "one", 1)]
+        result = [(p, n, e) for (p, n), e in merged.items() if e != 0] or [(None, "one", 1)]
+        if len(result) > 4 or any(abs(e) > 3 for _, _, e in result):
+            # too wide for the stated space (and for the float range): plain one-for-one replacement
+            return self.same_dimension_alternative(rng, factors, compose_prob=0.0, prefix_prob=prefix_prob) if compose_prob else result
+        return result
 
     def shape_class(self, factors):
         """structural key used for distinctness: multiset of (dimension, sign, |exp|,
